@@ -42,6 +42,9 @@ type Store struct {
 	// Gate, when set, is called before and after every datastore operation, outside the store's own lock: the
 	// schedule-exploring harness parks the calling goroutine there (point = ds.<op>.before|after).
 	Gate func(ctx context.Context, point, key string)
+	// HonourCtx makes every operation fail with the context's error once its context is done (as datastores
+	// that talk to a network or to a database do; the plain in-memory behaviour ignores contexts).
+	HonourCtx bool
 }
 
 // New returns an empty recording store.
@@ -155,6 +158,9 @@ func (s *Store) Put(ctx context.Context, k ds.Key, v []byte) error {
 	defer s.gate(ctx, "ds.put.after", k.String())
 	s.mu.Lock()
 	defer s.mu.Unlock()
+	if s.HonourCtx && ctx != nil && ctx.Err() != nil {
+		return ctx.Err()
+	}
 	if err := s.attempt(); err != nil {
 		return err
 	}
@@ -169,6 +175,9 @@ func (s *Store) Delete(ctx context.Context, k ds.Key) error {
 	defer s.gate(ctx, "ds.delete.after", k.String())
 	s.mu.Lock()
 	defer s.mu.Unlock()
+	if s.HonourCtx && ctx != nil && ctx.Err() != nil {
+		return ctx.Err()
+	}
 	if err := s.attempt(); err != nil {
 		return err
 	}
@@ -182,6 +191,9 @@ func (s *Store) Get(ctx context.Context, k ds.Key) ([]byte, error) {
 	defer s.gate(ctx, "ds.get.after", k.String())
 	s.mu.Lock()
 	defer s.mu.Unlock()
+	if s.HonourCtx && ctx != nil && ctx.Err() != nil {
+		return nil, ctx.Err()
+	}
 	s.Reads++
 	v, ok := s.m[k.String()]
 	if !ok {
@@ -195,6 +207,9 @@ func (s *Store) Has(ctx context.Context, k ds.Key) (bool, error) {
 	defer s.gate(ctx, "ds.has.after", k.String())
 	s.mu.Lock()
 	defer s.mu.Unlock()
+	if s.HonourCtx && ctx != nil && ctx.Err() != nil {
+		return false, ctx.Err()
+	}
 	s.Reads++
 	_, ok := s.m[k.String()]
 	return ok, nil
@@ -246,6 +261,9 @@ func (b *batch) Commit(ctx context.Context) error {
 	defer b.s.gate(ctx, "ds.commit.after", "")
 	b.s.mu.Lock()
 	defer b.s.mu.Unlock()
+	if b.s.HonourCtx && ctx != nil && ctx.Err() != nil {
+		return ctx.Err()
+	}
 	if err := b.s.attempt(); err != nil {
 		return err
 	}
